@@ -81,6 +81,8 @@ def run(ctx):
         "names are ASCII identifiers (strings.ToLower modelled on ASCII)",
     ]
     ctx.obligations_or_violation()
+    if not gl.build_judge(ctx):
+        return
     quick = ctx.tier == "quick"
     terms, jsons, err = gl.run_batches(ctx, "c04", 40, 10, 150)
     if err:
@@ -93,16 +95,7 @@ def run(ctx):
         ctx.report({"unchecked": "in-kernel evaluation of the correspondence", "detail": err},
                    {"kind": "coq_eval"}, failing_input=False)
         return
-    for i, code in bad:
-        j = jsons[i]
-        if ctx.nreplay < 1 and not known(ctx, j):
-            j = gl.minimise(ctx, "c04", CASE_TYPE, JUDGE, j, code)
-        rep = {"case": gl.slim(j), "definition_file": gl.single_enum_file(j) if "/minimised" not in j["kind"] else j["file"],
-               "differences": explain(j),
-               "verdict": {1: "observed behaviour violates the C04 specification (failing input)",
-                           2: "observed behaviour satisfies the specification but differs from the Coq model"}[code],
-               "replay_cmd": "./check C04 --replay <this file>"}
-        ctx.report(rep, features(j), failing_input=(code == 1))
+    gl.report_all(ctx, "c04", CASE_TYPE, JUDGE, jsons, bad, features, explain, widen_n=80, shard=12, maxlist=40)
     ntj = [j for j in jsons if nontrivial(j)]
     ctx.cov.update({
         "evaluations": len(jsons),
